@@ -5,15 +5,19 @@ import random
 
 from lib.tlc import MachineryError
 
-DEVS = ["Dev_C12_InputMomentum", "Dev_C12_ScaleOne", "Dev_C10_GroupSizeLost", "Dev_C10_LayerNormTarget", "Dev_C10_ScaleDtype",
+DEVS = ["Dev_C13_ReentryLeak", "Dev_C12_InputMomentum", "Dev_C12_ScaleOne", "Dev_C10_GroupSizeLost", "Dev_C10_LayerNormTarget", "Dev_C10_ScaleDtype",
         "Dev_C09_DeepCopyQBits", "Dev_C08_ScaleDtype", "Dev_C05_CopyPlain", "Dev_C07_F16Float8Act", "Dev_C08_LayerNormNoAffine", "Dev_C07_IntMMK1"]
 INVS = ["SwapExactlyEligible", "FrozenNeverStale", "NoStaleWeights", "CalibrationScoped"]
 PROPS = ["FreezePreservesDenotation", "FrozenNoGrad", "EmaLawStep", "InferencePure", "RoundTripDenotation"]
 FOCUS = {"C08": ["all", "train"], "C09": ["freeze"], "C10": ["serial"], "C11": ["train"], "C12": ["calib"], "C13": ["calib", "all"]}
 
 
+MODEL_DEFAULTS = {"Dev_C12_InputMomentum": False, "Dev_C10_GroupSizeLost": False, "Dev_C13_ReentryLeak": False, "StreamlineTypeTest": True}
+
+
 def life_cfg(c, name, depth, focus, model_devs, invs=(), props=(), view=True, emit=False):
     p = os.path.join(c.wd, name)
+    model_devs = dict(MODEL_DEFAULTS, **model_devs)
     with open(p, "w") as f:
         f.write("SPECIFICATION Spec\nCONSTANTS\n  MaxDepth = %d\n  Focus = \"%s\"\n" % (depth, focus)
                 + "".join("  %s = %s\n" % (k, "TRUE" if v else "FALSE") for k, v in model_devs.items())
@@ -32,16 +36,21 @@ def trace_consts(c, judge):
 def model_and_histories(c, judge, extra_skeletons=()):
     off = {"Dev_C12_InputMomentum": False, "Dev_C10_GroupSizeLost": False, "StreamlineTypeTest": True}
     c.mc("Lifecycle", life_cfg(c, "MC_Lifecycle.cfg", 4 if c.quick else 5, "all", off, INVS, PROPS), workers=12, timeout=1500,
-         require_actions=["Quantize", "ActForward", "ActEnterCalib", "ActCalibBatch", "ActRaiseIn", "ActExitCalib", "ActFreeze", "ActOptStep", "ActSave", "ActDeepCopy"] + ([] if c.quick else ["ActLoad"]))
+         require_actions=["Quantize", "ActForward", "ActEnterCalib", "ActReEnter", "ActCalibBatch", "ActRaiseIn", "ActExitCalib", "ActFreeze", "ActOptStep", "ActSave", "ActDeepCopy"] + ([] if c.quick else ["ActLoad"]))
     if judge == "C12":
         c.mc_expect_violation("Lifecycle", life_cfg(c, "MC_dev.cfg", 4, "calib", {"Dev_C12_InputMomentum": True, "Dev_C10_GroupSizeLost": False, "StreamlineTypeTest": True}, (), ["EmaLawStep"]), "EmaLawStep")
         # streamlining (outside the listed properties, evidence only): the documented intent holds in the model, the as-built type test breaks it
         c.mc("Lifecycle", life_cfg(c, "MC_streamline.cfg", 4, "calib", {"Dev_C12_InputMomentum": False, "Dev_C10_GroupSizeLost": False, "StreamlineTypeTest": False}, (), ["StreamlineKeepsConsumers"]), workers=8)
         c.mc_expect_violation("Lifecycle", life_cfg(c, "MC_streamline_dev.cfg", 4, "calib", {"Dev_C12_InputMomentum": False, "Dev_C10_GroupSizeLost": False, "StreamlineTypeTest": True}, (), ["StreamlineKeepsConsumers"]), "StreamlineKeepsConsumers")
+    if judge == "C13":
+        # the same Calibration object entered twice: with a single pair of handles per object the first pair of hooks is leaked
+        c.mc_expect_violation("Lifecycle", life_cfg(c, "MC_dev.cfg", 5, "calib", {"Dev_C13_ReentryLeak": True}, ["CalibrationScoped"], ()), "CalibrationScoped")
+        c.mc_expect_violation("Lifecycle", life_cfg(c, "MC_dev2.cfg", 6, "calib", {"Dev_C13_ReentryLeak": True}, (), ["InferencePure"]), "InferencePure")
     if judge == "C10":
         c.mc_expect_violation("Lifecycle", life_cfg(c, "MC_dev.cfg", 5, "serial", {"Dev_C12_InputMomentum": False, "Dev_C10_GroupSizeLost": True, "StreamlineTypeTest": True}, (), ["RoundTripDenotation"]), "RoundTripDenotation")
     devs = c.dev_constants(DEVS)
-    mdevs = {"Dev_C12_InputMomentum": devs["Dev_C12_InputMomentum"], "Dev_C10_GroupSizeLost": devs["Dev_C10_GroupSizeLost"], "StreamlineTypeTest": True}
+    mdevs = {"Dev_C12_InputMomentum": devs["Dev_C12_InputMomentum"], "Dev_C10_GroupSizeLost": devs["Dev_C10_GroupSizeLost"],
+             "Dev_C13_ReentryLeak": devs["Dev_C13_ReentryLeak"], "StreamlineTypeTest": True}
     rnd = random.Random(c.seed)
     sks = []
     stats = {}
